@@ -102,6 +102,7 @@ Cat ==
   ("audit_location_incomplete" :> M({}, "form", FALSE, "kind")) @@
   ("external_instance_twice" :> M({}, "form", FALSE, "ident")) @@
   ("search_list_shared"      :> M({"sel1"}, "survey", FALSE, "ident")) @@
+  ("search_list_shared_randomized" :> M({"sel1"}, "survey", FALSE, "ident")) @@     \* the other reader of the list is a randomized select
   ("loop_without_list"       :> M({}, "form", FALSE, "kind")) @@
   ("choice_extra_column_translated" :> M({}, "form", FALSE, "ident")) @@
   \* user text in XML name positions / text XML cannot represent (rejected by the writer)
